@@ -376,9 +376,9 @@ theorem algoTail_eq (H : Bytes → Bytes) (idxs : List Nat) (hl : idxs.length = 
 theorem mapM_wordIdx_of_not_mem (wl ws : List Nat) (h : ∃ w ∈ ws, w ∉ wl) :
     ws.mapM (wordIdx wl) = .error .value := by
   cases hr : ws.mapM (wordIdx wl) with
-  | error e => rw [(mapM_wordIdx_error wl ws e hr).1]
+  | error e => rw [(mapM_wordIdx_error_mn wl ws e hr).1]
   | ok idxs =>
-    obtain ⟨h1, h2⟩ := mapM_wordIdx_ok wl ws idxs hr
+    obtain ⟨h1, h2⟩ := mapM_wordIdx_ok_mn wl ws idxs hr
     obtain ⟨w, hw, hnot⟩ := h
     rw [h2, List.mem_map] at hw
     obtain ⟨i, hi, rfl⟩ := hw
@@ -388,7 +388,7 @@ theorem mapM_wordIdx_of_not_mem (wl ws : List Nat) (h : ∃ w ∈ ws, w ∉ wl) 
 
 theorem mapM_wordIdx_length {wl ws idxs : List Nat} (h : ws.mapM (wordIdx wl) = .ok idxs) :
     idxs.length = ws.length := by
-  rw [(mapM_wordIdx_ok wl ws idxs h).2, List.length_map]
+  rw [(mapM_wordIdx_ok_mn wl ws idxs h).2, List.length_map]
 
 theorem algoTail_error {H : Bytes → Bytes} (hH : ∀ x, 2 ≤ (H x).length) {idxs : List Nat}
     (hl : idxs.length = 25) (hlt : ∀ i ∈ idxs, i < 2048) {e : Err}
